@@ -524,6 +524,18 @@ func kProbe(cfg *KConfig, hist []string) kProbeResult {
 			probe = append(probe, x)
 			kProbeRun(cfg, hist, probe, gap, &out)
 		}
+		// mixed probes: another operation of the same session in between (same instant) must not make the repetition miss:
+		// X ; Y ; X with Y an encrypt / a decrypt of the newest or of the oldest record of the same partition
+		// (only with unbounded key caches: in a bounded one Y may legitimately evict the key X uses)
+		if cfg.Spec.IKSize != 0 || cfg.Spec.SKSize != 0 {
+			continue
+		}
+		part := strings.Split(x, ":")[3]
+		for _, y := range enabled {
+			if y != x && (y == "enc:1:L:"+part || strings.HasPrefix(y, "dec:1:L:"+part+":")) {
+				kProbeRun(cfg, hist, []string{x, y, x}, 0, &out)
+			}
+		}
 	}
 	return out
 }
@@ -547,7 +559,13 @@ func kProbeRun(cfg *KConfig, hist, probe []string, gap int, out *kProbeResult) {
 		}
 		msFromFirstEnd := len(w.ms.Calls)
 		for _, op := range probe[1 : len(probe)-1] {
-			w.apply(op)
+			if mid := w.apply(op); mid.Err != nil || mid.Panic != "" {
+				out.Counters["probe-middle-op-failed"]++
+				return
+			}
+		}
+		if len(probe) == 3 && !strings.HasPrefix(probe[1], "tick") {
+			out.Counters["C20.mixed-probe"]++
 		}
 		msFrom, kmsFrom := len(w.ms.Calls), len(w.kms.Calls)
 		second := w.apply(probe[len(probe)-1])
@@ -703,7 +721,7 @@ func callList(ms, kms []doubles.Call) string {
 
 // CheckC20 runs K with the repetition probes.
 func CheckC20(r *Report) {
-	r.Rule = "from every state of the K history space reached within the depth bound, every encrypt / decrypt that succeeds on a long-lived session of F1 is repeated on the same session immediately, 61 s, 599 s and 601 s later, and the metastore / KMS calls of the repetition are counted (0 within the interval; the key's record read exactly once after it); the KMS log of every probe history is checked for two unwraps of one system key by one factory within an interval; non-trivial = probes not exempt (key invalid / cannot be replaced)"
+	r.Rule = "from every state of the K history space reached within the depth bound, every encrypt / decrypt that succeeds on a long-lived session of F1 is repeated on the same session immediately, 61 s, 599 s and 601 s later, and (unbounded key caches) immediately after one other encrypt / decrypt of the newest or oldest record of the same partition, and the metastore / KMS calls of the repetition are counted (0 within the interval; the key's record read exactly once after it); the KMS log of every probe history is checked for two unwraps of one system key by one factory within an interval; non-trivial = probes not exempt (key invalid / cannot be replaced)"
 	type pc struct {
 		name  string
 		depth int
